@@ -24,6 +24,11 @@ def earliest (l : List Sleeper) : Option Sleeper :=
     | none => some s
     | some b => if s.deadline < b.deadline || (s.deadline = b.deadline && s.sid < b.sid) then some s else some b) none
 
+/-- the timer of `sl` fires: it leaves the list, the clock jumps to its deadline -/
+def fireSleeper (sl : Sleeper) : M Unit :=
+  modS fun s => { s with sleepers := s.sleepers.filter (·.sid ≠ sl.sid),
+                         k := ({ s.k with now := max s.k.now sl.deadline }).resolve }
+
 def stepM (op : Op) : M Unit := do
   let s0 ← getS
   if s0.blocked then pure () else
@@ -31,13 +36,13 @@ def stepM (op : Op) : M Unit := do
   match op with
   | .start =>
     let desc ← iterWatchers true
-    modS fun s => { s with doneVals := [] }
+    clearDone
     let r ← syncCoroutine "arbiter_start_watchers" (.arbStartWatchers desc) []
     match r with | .error _ => emit .conflict | .ok tid => addDoneCallback tid .watch
   | .req cid j => handleMessage (some cid) j
   | .sigreq q => if q then sigQuit else handleMessage none (some reloadMsg)
   | .check =>
-    modS fun s => { s with doneVals := [] }
+    clearDone
     let r ← syncCoroutine "manage_watchers" .manageWatchers []
     match r with | .error _ => emit .conflict | .ok tid => addDoneCallback tid .watch
   | .wake =>
@@ -45,20 +50,19 @@ def stepM (op : Op) : M Unit := do
     match earliest s.sleepers with
     | none => emit .nosleeper
     | some sl =>
-      modS fun s => { s with sleepers := s.sleepers.filter (·.sid ≠ sl.sid),
-                             k := ({ s.k with now := max s.k.now sl.deadline }).resolve }
+      fireSleeper sl
       deliver (exec fuelDefault) sl.waiter .unit
   | .adv ms =>
-    modS fun s =>
-      let lim := (s.sleepers.map (·.deadline)).foldl min (s.k.now + ms)
-      { s with k := ({ s.k with now := max s.k.now (min (s.k.now + ms) lim) }).resolve }
-  | .die pid st => modS fun s => { s with k := s.k.die pid st }
+    let s ← getS
+    let lim := (s.sleepers.map (·.deadline)).foldl min (s.k.now + ms)
+    setK ({ s.k with now := max s.k.now (min (s.k.now + ms) lim) }).resolve
+  | .die pid st => do let k ← getK; setK (k.die pid st)
   | .xkill pid sig => do let _ ← kKill pid sig "x"
-  | .fault k pid st => modS fun s => { s with k := { s.k with faults := s.k.faults ++ [(k, pid, st)] } }
+  | .fault n pid st => do let k ← getK; setK { k with faults := k.faults ++ [(n, pid, st)] }
   settle 100000
   let a ← getA
   if a.loopStop then
-    modA fun a => { a with loopStop := false }
+    setLoopStop false
     stopController
 
 def step (s : State) (op : Op) : State := (stepM op s).2
